@@ -362,3 +362,66 @@ def library_calls(cx, units):
                 if got != units:
                     m.set_current_units("energy", units)    # keep going: one finding per call site
         cx.prove("restored_after_block", m.get_current_units("energy") == before)
+
+
+BATH_KINDS = {
+    # name: (class, ftype, energy parameters, other parameters)
+    "SD-OverdampedBrownian": ("SD", "OverdampedBrownian", ("reorg",), dict(cortime=100.0, T=300.0)),
+    "SD-UnderdampedBrownian": ("SD", "UnderdampedBrownian", ("reorg", "freq", "gamma"), dict(T=300.0)),
+    "SD-Underdamped": ("SD", "Underdamped", ("reorg", "freq", "gamma"), dict(T=300.0)),
+    "CF-Underdamped": ("CF", "Underdamped", ("reorg", "freq", "gamma"), dict(T=300.0)),
+    "CF-OverdampedBrownian": ("CF", "OverdampedBrownian", ("reorg",), dict(cortime=100.0, T=300.0, matsubara=1)),
+    "CF-OverdampedBrownian-HighTemperature": ("CF", "OverdampedBrownian-HighTemperature", ("reorg",),
+                                              dict(cortime=100.0, T=300.0)),
+}
+
+
+@harness("C05", "bath_function_parameters",
+         quick=[dict(kind=k, units=u) for k in BATH_KINDS for u in ("1/cm",)] +
+               [dict(kind="SD-OverdampedBrownian", units="eV"), dict(kind="CF-OverdampedBrownian", units="THz")],
+         thorough=[dict(kind=k, units=u) for k in BATH_KINDS for u in ("1/cm", "eV", "THz", "meV", "1/fs")],
+         functions=["quantarhei/qm/corfunctions/spectraldensities.py:SpectralDensity.__init__",
+                    "quantarhei/qm/corfunctions/spectraldensities.py:SpectralDensity._make_underdamped",
+                    "quantarhei/qm/corfunctions/correlationfunctions.py:CorrelationFunction.__init__",
+                    F_M + ":Manager.convert_energy_2_internal_u"],
+         bound="analytic bath functions (spectral densities: overdamped / underdamped Brownian, 'Underdamped'; "
+               "correlation functions: overdamped Brownian and its high-temperature form) whose energy parameters "
+               "(reorganisation energy, oscillator frequency, damping; symbolic) are supplied inside an energy-units context "
+               "as the converted numbers: data and reorganisation energy stored internally equal those of the "
+               "same object built in internal units",
+         out="the B777 and CP29 types (CP29 normalises by a numerically measured reorganisation energy that "
+             "divides by the zero of the frequency axis - numpy's nan semantics, not modelled; its constructor is "
+             "handed the unconverted parameters exactly like 'Underdamped' was) and correlation functions obtained "
+             "by numerical transforms")
+def bath_function_parameters(cx, kind, units):
+    import quantarhei as qr
+    from quantarhei.core.managers import Manager
+    cls, ftype, eparams, other = BATH_KINDS[kind]
+    m = Manager()
+    with cx.concrete():
+        axis = qr.FrequencyAxis(-3 * 0.0625, 6, 0.0625) if cls == "SD" else qr.TimeAxis(0.0, 3, 10.0)
+    vals = {"reorg": cx.real("reorg", 0.001, 0.01)}
+    if "freq" in eparams:
+        vals["freq"] = cx.real("freq", 0.05, 0.2)
+    if "gamma" in eparams:
+        vals["gamma"] = cx.real("gamma", 0.005, 0.02)    # the damping is an energy-like parameter of these types
+    for v in vals.values():
+        cx.assume(v > 0, "energy parameters > 0")
+    make = qr.SpectralDensity if cls == "SD" else qr.CorrelationFunction
+
+    def build(in_units):
+        with qr.energy_units(in_units):
+            p = dict(ftype=ftype, **other)
+            for k in eparams:
+                p[k] = m.convert_energy_2_current_u(vals[k])    # the same physical quantity, in the context's units
+            return make(axis, p)
+    ref = build("int")
+    obj = build(units)
+    cx.assume_denominators_nonzero("parameters away from the poles of the analytic formulas")
+    cx.prove_eq("data_independent_of_supplying_context", obj.data, ref.data, tol=1e-9)
+    cx.prove_eq("reorganisation_energy_independent_of_supplying_context", obj.lamb, ref.lamb, tol=1e-9)
+    with qr.energy_units(units):
+        got = obj.get_reorganization_energy() if hasattr(obj, "get_reorganization_energy") else None
+        want = m.convert_energy_2_current_u(vals["reorg"])
+    if got is not None:
+        cx.prove_eq("reorganisation_energy_read_back", got, want, tol=1e-9)
